@@ -14,7 +14,7 @@ RULE = ('cases = seeded random sequences of 1..60 frames over a protocol-aware a
         'and 255; every defined control byte plus random ones; sessions 0..15; size/packet/sequence/window fields from boundary sets and random; data '
         'lengths 0..8 (0..64 FD); gaps 0..3.1 s) put on the bus by a scripted node (seen by two real stacks) or fed straight into ecu.notify / the '
         'listener of the stack under test, interleaved with the stack\'s own send_pgn calls; in half of the cases delivery latency is zero with probability 0.5/1 (a frame is handled while the sender is still inside its send call) and the scripted node additionally answers transport frames of the real stacks at once with an abort / CTS / end-of-message / data frame aimed at the same session; oracle after the sequence: job threads alive, never '
-        'span, parked with a positive time-out; after 3.3 s of quiet all session tables empty / FD pools full; a probe timer fires on time; one '
+        'span, parked with a positive time-out; after 3.7 s of quiet (hold time + longest time-out) all session tables empty / FD pools full; a probe timer fires on time; one '
         'well-formed transfer in each direction is delivered intact; non-trivial = >=1 frame reached a transport handler of a stack; distinct = '
         'layer + set of (frame class, control) fed + own sends')
 ASSUMPTIONS = ['exceptions returned to the caller of ecu.notify are counted, never judged', 'own transfers interleaved with the hostile traffic are short '
@@ -197,13 +197,15 @@ def run_case(case):
         tb = nd.tables()
         sessions_opened += sum(v for v in tb.values() if v)
     t_quiet = sim.now
-    W.run(t_quiet + 3.3)
+    # a hold CTS (0.5 s) may legitimately be followed by one more burst and the wait for its answer (T5 = 3 s): sessions are released within the
+    # longest time-out of their own last activity, which can be up to 3.5 s after the last hostile frame
+    W.run(t_quiet + 3.7)
 
     obs = dict(reactive_frames=H.reactions, zero_latency_cases=1 if zero else 0, frames_fed=fed[0], exceptions_contained=sum(A.notify_exc.values()) + sum(B.notify_exc.values()), sessions_opened=sessions_opened,
                followups_ok=0, probe_timers_ok=0, own_sends=len(own), own_send_raised=sum(1 for o in own if o[3]))
     # ---- oracle ---------------------------------------------------------------------------
     M.m_live(viol, W, layer)
-    M.m_quiet(viol, W, layer, what='3.3 s after the last hostile frame')
+    M.m_quiet(viol, W, layer, what='3.7 s after the last hostile frame')
     if W.bus.rx_exc:
         viol.add('listener_leaked_exception', 'exception escaped a MessageListener: %s' % (W.bus.rx_exc[0],), layer=layer)
     dead = bool(W.liveness_problems())
